@@ -140,15 +140,51 @@ def kv_replay(c, spec, adapters, edges, conf, walks, wlen, par, clause, timeout=
     left = [d for d in os.listdir(c.scratch) if d.startswith("kvdb-")]
     if left:
         raise vlib.Infra("harness left database directories behind: %s" % left)
+    cases = []
     for name in adapters:
         rep = out["reports"].get(name)
         if rep is None or rep.get("applied", 0) == 0:
             raise vlib.Infra("replay applied no transition for adapter " + name)
         for m in rep.get("mismatches") or []:
+            cases.append(dict(adapter=name, mismatch=m))
+    if not cases:
+        return out
+    # DESIGN.md section 2: a contradiction counts only if it reproduces on an immediate second run of the same
+    # scenario (fresh process, fresh databases): path of the walk + offending transition, twice
+    casep = c.path("confirm-%s.json" % spec)
+    with open(casep, "w") as f:
+        json.dump(cases, f)
+    cp = c.vh(["kvconfirm", "-spec", spec, "-conf", confp, casep], timeout=timeout)
+    try:
+        verdicts = json.loads(cp.stdout)
+    except ValueError:
+        raise vlib.Infra("kvconfirm output unreadable: " + cp.stdout[-500:] + cp.stderr[-2000:])
+    confirmed_adapters = set()
+    unreproduced = []
+    for case, v in zip(cases, verdicts):
+        name, m = case["adapter"], case["mismatch"]
+        if v["again"] > 0:
+            confirmed_adapters.add(name)
+            m["confirmed_again"] = v
             c.violation(clause, m["sig"], describe(name, m, conf), replay=m)
+        else:
+            unreproduced.append("%s (%s)" % (m["sig"], describe(name, m, conf)[:300]))
+    for name in adapters:
+        rep = out["reports"][name]
+        kept = set(m["sig"] for m in rep.get("mismatches") or [])
         for sig, n in (rep.get("sigs") or {}).items():
-            if not any(m["sig"] == sig for m in rep.get("mismatches") or []):
-                c.violation(clause, sig, "%s: %d mismatching transitions" % (name, n))
+            if sig not in kept:
+                if name in confirmed_adapters:
+                    c.violation(clause, sig, "%s: %d mismatching transitions (other mismatches of this stacking reproduced)" % (name, n))
+                else:
+                    unreproduced.append("%s x%d" % (sig, n))
+    if unreproduced:
+        c.notes.append("mismatches that did NOT reproduce on an immediate second run: " + "; ".join(unreproduced[:8]))
+        c.log("WARNING: %d mismatch(es) did not reproduce on a fresh run:" % len(unreproduced), unreproduced[:3])
+        if not c.violations:
+            raise vlib.Infra("the replay saw %d mismatch(es) that did not reproduce on an immediate second run (first: %s); "
+                             "environment too noisy or a non-deterministic backend failure, no verdict" % (
+                                 len(unreproduced), unreproduced[0][:400]))
     return out
 
 
